@@ -276,6 +276,9 @@ EXTENSIONS = {
     'X08': 'find_program() resolution: overrides, [binaries], dirs, source directory, PATH, wrap providers, wrap modes, versions, machines (specs/findprog)',
     'X09': 'CMake interoperability: generator-expression evaluation, trace-command folding, define/flag helpers (specs/cmakeinterop)',
     'X07': 'option definition files (restricted expression language, option() declaration rules) and deprecated-option translation (specs/optfile)',
+    'X10': 'build-directory lock and wrap lock: concurrent meson commands on one build directory / one subprojects directory as multi-process state machines with kills, schedules forced on real processes through gates (specs/dirlock)',
+    'X11': '`meson subprojects` command family (download, update, checkout, foreach, purge, packagefiles) over an abstract subprojects directory (specs/msubprojects)',
+    'X12': '`meson dist`: archive contents versus the revision-controlled tree, dist scripts, the test cycle of the unpacked archive (specs/mdist)',
 }
 
 
